@@ -211,6 +211,9 @@ def build_cases(tier, seed):
         prof = dict(PROFILE)
         prof["network"] = ["euclidean", "grid", "euclidean", "denver"][i % 4]
         ctrl = BUILTIN if i % 2 == 0 else hostile_stack(p=0.3, builtin=True)
+        if i % 12 == 7:
+            # a coarser sim_h3_resolution on the straight-line network, without requests (DESIGN 6)
+            prof.update({"network": "euclidean", "loc_res": [12, 13, 14][(i // 12) % 3], "n_requests": (0, 0), "soc": [0.03, 0.08, 0.2, 0.5]})
         cases.append(trace_case("C08", i, s, prof, ctrl, steps, ["C08"], opts=({"inject_requests": {"every": 4, "public": False}, "cosim_ops": {"every": 6, "kinds": ["add_vehicle", "append_plugs"]}} if i % 3 == 1 else {})))
     if tier == "thorough":
         for w in ("denver_downtown/denver_demo.yaml", "denver_downtown/denver_demo_fleets.yaml", "manhattan/manhattan.yaml"):
